@@ -130,9 +130,25 @@ def gen_filters_derived(g, rng, tier, n):
             # a custom field read through an accessor function, on the temporaries an intersection yields
             f = {"k": "cmp", "p": ["field", "prio", "callable"], "c": rng.choice(["eq", "ne"]),
                  "v": rng.choice([["int", rng.choice([0, 1, 2, 5])], ["none"]])}
+        masked_operand = rng.random() < 0.35
+        if masked_operand:
+            # rich & <mask>: the other operand only constrains time (its own events are never emitted)
+            inner = {"op": "and", "l": l, "r": {"op": rng.choice(["flatten", "flatten", "inv"]), "s": r}}
+            if rng.random() < 0.5:
+                inner["l"], inner["r"] = inner["r"], inner["l"]
+            if all(e[0] is not None and e[1] is not None for e in l["evs"]) and rng.random() < 0.6:
+                # a custom span-reading property (field(lambda e: e.end - e.start) / field("duration")): it must
+                # be judged on the trimmed fragment, like the built-in duration properties
+                f = {"k": "cmp", "p": ["dur", 1, "field"], "c": rng.choice(["ge", "le", "gt", "lt", "eq", "ne"]),
+                     "v": ["int", rng.randrange(0, 6)]}
         t = {"op": "filt", "s": inner, "f": f}
         a = rng.randrange(-1, 7)
         b = rng.randrange(a + 1, 9)
+        if masked_operand:
+            # (the fragments a complement-built mask cuts are window-dependent at the window's edges — outside
+            #  C05 / C18 by design — so these cases are asked over the whole line)
+            yield dict(tree=t, q=[(None, None, rng.random() < 0.2)])
+            continue
         yield dict(tree=t, q=[(a, b, rng.random() < 0.2)])
 
 
